@@ -1,0 +1,23 @@
+//go:build verif
+
+package filesystem
+
+import "github.com/cossacklabs/acra/keystore/v2/keystore/api"
+
+// Verification hooks (build tag `verif` only; nothing here is compiled into Acra's binaries).
+
+// VerifUnsealKey unseals an encrypted key blob exactly as the key ring at `path` would unseal its key
+// number `seqnum` (private key of a key pair when `private` is set, symmetric key otherwise). It lets the
+// verification harness present a blob taken from one ring / sequence number to another one without
+// re-signing a ring file.
+func VerifUnsealKey(store api.KeyStore, path string, private bool, seqnum int, blob []byte) ([]byte, error) {
+	s, ok := store.(*KeyStore)
+	if !ok {
+		return nil, api.ErrInvalidFormat
+	}
+	ring := newKeyRing(s, path)
+	if private {
+		return ring.decryptPrivateKey(seqnum, blob)
+	}
+	return ring.decryptSymmetricKey(seqnum, blob)
+}
